@@ -1,6 +1,7 @@
 (* Extraction of the executable C02 model for the correspondence check.
    ExtrOcamlBasic only: Z / positive stay inductive; no Extract Constant of our own. *)
 From Coq Require Import Extraction ExtrOcamlBasic ZArith List.
-From Acme.C02 Require Import Model Spec.
+From Acme.C02 Require Import Model Spec History.
 Extraction Language OCaml.
-Extraction "extracted/c02_model.ml" gen_filters decode decode_all raw_le raw_be d08.
+Extraction "extracted/c02_model.ml" gen_filters decode decode_all raw_le raw_be d08
+  new_message step filters m_be m_bits m_sigs m_cache.
